@@ -40,3 +40,40 @@ Example C08_fp_slice_example :
   skipn 16 (fp_apply_list 3 3 4 4 2 (Q2Qc (3 # 2)) (Q2Qc (1 # 8)) 1%Qc ax d)
   = fp_apply_list 3 3 4 4 1 (Q2Qc (3 # 2)) (Q2Qc (1 # 8)) 1%Qc ax (skipn 16 d).
 Proof. vm_compute. reflexivity. Qed.
+
+(** ** RF kick and drift (built by family rf, Model/RF.v mirrors RFKickMap::_calcKick after the
+    repo's fix 072b56b and the DriftMap constructor): the entry of the offset vector that KickMap::apply
+    reads for bunch b carries the same field as the one the single-bunch map reads, so slice b of the
+    nb-bunch RF kick / drift is the single-bunch kick of that slice. *)
+From Inovesa Require Import Model.RF Proofs.RFP Proofs.RFGridP.
+
+Theorem C08_rf_offsets_same_for_every_bunch :
+  forall (K : Fld) (n nb : Z) (f : Z -> K) (b x : Z),
+    0 <= b < nb -> 0 <= x < n ->
+    rf_offsets n f (Z.min b (nb - 1) * n + x) = f x /\
+    rf_offsets n f (Z.min b (nb - 1) * n + x) = rf_offsets n f (Z.min 0 (1 - 1) * n + x).
+Proof. exact C08_rf_offsets_all_bunches. Qed.
+Print Assumptions C08_rf_offsets_same_for_every_bunch.
+
+Theorem C08_drift_offsets_same_for_every_bunch :
+  forall (K : Fld) (n : Z) (f : Z -> K) (y : Z),
+    0 <= y < n ->
+    drift_offsets n f y = f y /\ (forall i, n <= i -> drift_offsets n f i = f0).
+Proof. exact C08_drift_offsets_all_bunches. Qed.
+Print Assumptions C08_drift_offsets_same_for_every_bunch.
+
+Theorem C08_rf_kick_slice :
+  forall n nb it (f : Z -> Qc) (D : Z -> Qc) b x y,
+    valid_it it -> 0 < n -> 0 < nb -> 0 <= b < nb -> 0 <= x < n -> 0 <= y < n ->
+    apply_y n nb it (updateSM n it (rf_offsets (K:=QcF) n f)) D (didx n b x y) =
+    apply_y n 1 it (updateSM n it (rf_offsets (K:=QcF) n f)) (fun i => D (b * n * n + i)) (didx n 0 x y).
+Proof. exact rf_kick_slice. Qed.
+Print Assumptions C08_rf_kick_slice.
+
+Theorem C08_drift_kick_slice :
+  forall n nb it (f : Z -> Qc) (D : Z -> Qc) b x y,
+    valid_it it -> 0 < n -> 0 < nb -> 0 <= b < nb -> 0 <= x < n -> 0 <= y < n ->
+    apply_x n nb it (updateSM n it (drift_offsets (K:=QcF) n f)) D (didx n b x y) =
+    apply_x n 1 it (updateSM n it (drift_offsets (K:=QcF) n f)) (fun i => D (b * n * n + i)) (didx n 0 x y).
+Proof. exact drift_kick_slice. Qed.
+Print Assumptions C08_drift_kick_slice.
